@@ -40,7 +40,7 @@ partial def loop (h : IO.FS.Stream) (n bad : Nat) : IO Nat := do
     let clang := kind == "clang"
     let args := if argv == "-" then [] else (argv.splitOn ",").map unhex
     let search := if clang then search2 gccArgs clangArgs else search1 gccArgs
-    let r := showRes (parseArgs search clang (pp == "true") false args)
+    let r := showRes (parseArgs search clang (pp == "true") false args (search2 gccArgs clangArgs))
     if r ≠ parts[1]! then
       IO.println s!"MISMATCH line {n}: {kind} {pp} {args.map str}\n  real : {parts[1]!}\n  model: {r}"
       loop h (n + 1) (bad + 1)
